@@ -246,6 +246,7 @@ def eval_host(case):
     steps = {}     # animation key -> times of the ticks at which the animation visibly stepped
     sigs = {}
     counts = {}
+    due, last_tick = {}, {}
     anim_rows = set()
     other = None
     for i, op in enumerate(case["ops"]):
@@ -298,6 +299,14 @@ def eval_host(case):
             if op["op"] == "tick" and stt.active is False:
                 counts.setdefault(key, len(tl))
             b = bound(len(stt.text), cols)
+            if op["op"] == "tick":
+                # ticks that come speed_ms or more after the previous tick are due for every animation (its last step is at least that old)
+                lt = last_tick.get(key)
+                if lt is None or op["now"] - lt >= stt.speed_ms:
+                    due[key] = due.get(key, 0) + 1
+                last_tick[key] = op["now"]
+                if not stt.loop and stt.active and due.get(key, 0) > b + 3 and not shared_row(lcd, stt):
+                    return "FAIL", [mk(f"host-does-not-finish:{stt.animation}", f"inactive within {b + 1} steps", f"still active after {due[key]} due ticks ({len(tl)} steps)")]
             if not stt.loop and stt.active and len(tl) > b + 1:
                 return "FAIL", [mk(f"host-does-not-finish:{stt.animation}", f"inactive within {b + 1} steps", f"{len(tl)} steps, still active")]
             if stt.loop and not stt.active:
